@@ -107,11 +107,30 @@ std::string propPeriodic(const FmmCase& c, const std::string& prop){
     S.reset(c.threads, c.sched);
     TopAlgo topAlgorithm(config, Kernel(&ctxTop), long(c.extraLevels));
 
-    // the documented sequence
-    algorithm.execute(*tree, TbfAlgorithmUtils::TbfBottomToTopStages);
-    topAlgorithm.execute(*tree);
-    algorithm.execute(*tree, TbfAlgorithmUtils::TbfTransferStages);
-    algorithm.execute(*tree, TbfAlgorithmUtils::TbfTopToBottomStages);
+    std::string stagedErr;
+    if(c.history.empty()){
+        // the documented sequence
+        algorithm.execute(*tree, TbfAlgorithmUtils::TbfBottomToTopStages);
+        topAlgorithm.execute(*tree);
+        algorithm.execute(*tree, TbfAlgorithmUtils::TbfTransferStages);
+        algorithm.execute(*tree, TbfAlgorithmUtils::TbfTopToBottomStages);
+    }
+    else{
+        // C12 on the periodic pair of executors: an ordered partition of the operator flags into calls; for each flag set F the upward
+        // part on the real tree, then the top tree with F, then the rest on the real tree (every such sequence respects the data flow:
+        // real M2M before top M2M, top L2L before real L2L). Per call: only requested operators may be applied.
+        for(int F : c.history){
+            const int up = F & (TbfAlgorithmUtils::TbfP2M | TbfAlgorithmUtils::TbfM2M), down = F & ~up;
+            if(up){ const size_t from = ctx.log.size(); algorithm.execute(*tree, up); if(stagedErr.empty()) stagedErr = fh::checkOpsOfCall(ctx.log, from, up, 1, Dim); }
+            {
+                const size_t from = ctxTop.log.size();
+                topAlgorithm.execute(*tree, F);
+                if(stagedErr.empty()){ stagedErr = fh::checkOpsOfCall(ctxTop.log, from, F, -1000, Dim); if(!stagedErr.empty()) stagedErr = "top tree: " + stagedErr; }
+            }
+            if(down){ const size_t from = ctx.log.size(); algorithm.execute(*tree, down); if(stagedErr.empty()) stagedErr = fh::checkOpsOfCall(ctx.log, from, down, 1, Dim); }
+        }
+    }
+    if(!stagedErr.empty()) return stagedErr;
 
     const auto interval = topAlgorithm.getRepetitionsIntervals();
     const long lo = interval.first[0], hi = interval.second[0];
@@ -208,7 +227,7 @@ std::string propPeriodic(const FmmCase& c, const std::string& prop){
     return "";
 }
 
-pbt::GenCfg cfgFor(const std::string& /*prop*/, const hc::Args& a){
+pbt::GenCfg cfgFor(const std::string& prop, const hc::Args& a){
     pbt::GenCfg g;
     g.dim = Dim; g.real = 0; g.tsm = TSMP; g.periodic = true;
     static const int hmax[5] = {0, 7, 5, 4, 3};
@@ -219,6 +238,8 @@ pbt::GenCfg cfgFor(const std::string& /*prop*/, const hc::Args& a){
 #if RT == 1
     g.schedules = true; g.executors = 2;
 #endif
+    if(prop == "C12") g.histories = true;
+    if(prop == "C10"){ g.histories = true; g.historyOneIn = 4; }
     return g;
 }
 
